@@ -163,6 +163,24 @@ impl Prop for C09 {
     }
 
     fn generate(rng: &mut Rng, _tier: Tier, lane: &str) -> Case {
+        if lane == "miri" {
+            return Case {
+                lane: lane.to_string(),
+                stack: match rng.random_range(0..3) {
+                    0 => Stack::Pipe,
+                    1 => Stack::Buffered,
+                    _ => Stack::PipeBuffered,
+                },
+                threads: rng.random_range(1..=3u8),
+                buffer: rng.random_range(0..=2),
+                k: rng.random_range(0..=4),
+                upstream: if rng.random_bool(0.5) { None } else { Some(rng.random_range(0..=8)) },
+                strategy: Strategy::Random,
+                sseed: rng.random(),
+                chaos_level: 0,
+                panic_at: vec![],
+            };
+        }
         let stack = match rng.random_range(0..3) {
             0 => Stack::Pipe,
             1 => Stack::Buffered,
@@ -242,6 +260,9 @@ impl Prop for C09 {
     fn check(c: &Case, obs: &mut Obs) {
         if c.lane == "panic" {
             return check_panic(c, obs);
+        }
+        if c.lane == "miri" {
+            return check_plain(c, obs);
         }
         let s = sched::sched();
         s.ensure_installed();
@@ -675,4 +696,70 @@ pub fn child(spec: &str) -> i32 {
         }
     }
     0
+}
+
+/// drop test without controller / clocks / proc files (used under Miri): take k items, drop the
+/// iterator, wait (yielding) for the Drop of the upstream iterator, judge the pull counts
+fn check_plain(c: &Case, obs: &mut Obs) {
+    let w = if c.stack == Stack::Buffered { 0 } else { c.threads as usize };
+    let b = if c.stack != Stack::Pipe { c.buffer } else { 0 };
+    let limit = lookahead_bound(w, b);
+    let pulled = Arc::new(AtomicUsize::new(0));
+    let consumed = Arc::new(AtomicUsize::new(0));
+    let drop_mark = Arc::new(AtomicUsize::new(usize::MAX));
+    let max_ahead = Arc::new(AtomicUsize::new(0));
+    let max_after_drop = Arc::new(AtomicUsize::new(0));
+    let exceeded = Arc::new(AtomicBool::new(false));
+    let dropped = Arc::new(AtomicBool::new(false));
+    let src = MonSource {
+        i: 0,
+        n: c.upstream.unwrap_or(usize::MAX),
+        limit,
+        pulled: pulled.clone(),
+        consumed: consumed.clone(),
+        drop_mark: drop_mark.clone(),
+        max_ahead: max_ahead.clone(),
+        max_after_drop: max_after_drop.clone(),
+        exceeded: exceeded.clone(),
+        dropped: dropped.clone(),
+    };
+    let mut it = build(&c.stack, src, c.threads, c.buffer, vec![]);
+    let mut got = vec![];
+    for _ in 0..c.k {
+        match it.next() {
+            Some(v) => {
+                got.push(v);
+                consumed.fetch_add(1, Ordering::SeqCst);
+            }
+            None => break,
+        }
+    }
+    // let the background threads run ahead for a while
+    for _ in 0..2_000 {
+        std::thread::yield_now();
+    }
+    drop_mark.store(pulled.load(Ordering::SeqCst), Ordering::SeqCst);
+    drop(it);
+    let mut spins = 0u32;
+    while !dropped.load(Ordering::SeqCst) && !exceeded.load(Ordering::SeqCst) && spins < 3_000_000 {
+        std::thread::yield_now();
+        spins += 1;
+    }
+    let expect: Vec<u64> = (0..got.len()).map(super::c05::tag).collect();
+    obs.check(got == expect, "prefix-wrong", || format!("{got:?}"));
+    if exceeded.load(Ordering::SeqCst) {
+        obs.fail(
+            "pull-count-exceeds-bound",
+            format!(
+                "{:?} W={w} buffer={b} k={}: max ahead {} / after drop {} (bound {limit})",
+                c.stack,
+                c.k,
+                max_ahead.load(Ordering::SeqCst),
+                max_after_drop.load(Ordering::SeqCst)
+            ),
+        );
+    } else if !dropped.load(Ordering::SeqCst) {
+        obs.inconclusive("upstream iterator not dropped after 3e6 yields");
+    }
+    obs.nontrivial_if(c.k >= 1 && (w >= 2 || b >= 1));
 }
